@@ -112,4 +112,212 @@ theorem seq_changed_is_reread (useInode : Bool) (other : List FileId) (known : L
     obtain ⟨i, f, h, hk, _, hs⟩ := (seq_scan_sound useInode other known ps).2 x hx ht
     exact absurd hs (hno (f, h) (List.mem_of_getElem? hk))
 
+
+section Convergence
+open ScanSeq
+/-! ### convergence: scanning a disk that holds exactly the recorded files changes nothing -/
+
+theorem find_unique (s : SSt) (q : KEntry → Bool) (i : Nat) (hi : i < s.n) (hq : q (s.e i) = true)
+    (huniq : ∀ j, j < s.n → q (s.e j) = true → j = i) : s.find q = some i := by
+  unfold SSt.find
+  cases h : (List.range s.n).find? (fun i => q (s.e i)) with
+  | none =>
+    have := List.find?_eq_none.mp h i (List.mem_range.mpr hi)
+    simp [hq] at this
+  | some j =>
+    have h1 := List.find?_some h
+    have h2 := List.mem_range.mp (List.mem_of_find?_eq_some h)
+    rw [huniq j h2 (by simpa using h1)]
+
+theorem find_none' (s : SSt) (q : KEntry → Bool) (h : ∀ j, j < s.n → q (s.e j) = false) : s.find q = none := by
+  unfold SSt.find
+  apply List.find?_eq_none.mpr
+  intro j hj
+  simp [h j (List.mem_range.mp hj)]
+
+/-- the state while a disk that holds exactly the recorded files `F 0 … F (n-1)` is scanned:
+    nothing removed, identities untouched, `done` are the entries met so far -/
+structure Conv (u : Bool) (n : Nat) (F : Nat → FileId) (s : SSt) (done : List Nat) : Prop where
+  n_eq : s.n = n
+  live : ∀ j, j < n → (s.e j).removed = false
+  id_eq : ∀ j, j < n → (s.e j).id = F j
+  pres : ∀ j, j < n → ((s.e j).present = true ↔ j ∈ done)
+  hasI : ∀ j, j < n → (s.e j).hasInode = (u || (s.e j).present)
+
+theorem conv_step (u : Bool) (other : List FileId) (n : Nat) (F : Nat → FileId)
+    (hino : ∀ j k, j < n → k < n → (F j).inode = (F k).inode → j = k)
+    (hpath : ∀ j k, j < n → k < n → (F j).path = (F k).path → j = k)
+    (s : SSt) (done : List Nat) (hc : Conv u n F s done) (i : Nat) (hi : i < n) (hnd : i ∉ done) :
+    (scanStep u other s (F i)).2.cls = .equal ∧ (scanStep u other s (F i)).2.keeps = some i ∧
+      Conv u n F (scanStep u other s (F i)).1 (i :: done) := by
+  have hpf : (s.e i).present = false := by
+    cases h : (s.e i).present with
+    | false => rfl
+    | true => exact absurd ((hc.pres i hi).mp h) hnd
+  have hstamp : sameStamp (s.e i).id (F i) = true := by
+    rw [hc.id_eq i hi]; simp [sameStamp]
+  -- the conclusion for the two ways the entry gets marked present
+  have hfinal : ∀ v : KEntry, v.removed = false → v.id = F i → v.present = true → v.hasInode = true →
+      Conv u n F (s.set i v) (i :: done) := by
+    intro v h1 h2 h3 h4
+    refine ⟨hc.n_eq, ?_, ?_, ?_, ?_⟩
+    · intro j hj
+      by_cases hji : j = i
+      · subst hji; simpa using h1
+      · rw [set_e_other _ _ _ _ hji]; exact hc.live j hj
+    · intro j hj
+      by_cases hji : j = i
+      · subst hji; simpa using h2
+      · rw [set_e_other _ _ _ _ hji]; exact hc.id_eq j hj
+    · intro j hj
+      by_cases hji : j = i
+      · subst hji; simp [h3]
+      · rw [set_e_other _ _ _ _ hji, hc.pres j hj]; simp [hji]
+    · intro j hj
+      by_cases hji : j = i
+      · subst hji; simp [h3, h4]
+      · rw [set_e_other _ _ _ _ hji]; exact hc.hasI j hj
+  unfold scanStep
+  by_cases hu : u = true
+  · -- usable inodes: found by inode, same path
+    have hfind : s.find (fun k => !k.removed && k.hasInode && k.id.inode == (F i).inode) = some i := by
+      apply find_unique s _ i (by rw [hc.n_eq]; exact hi)
+      · simp [hc.live i hi, hc.hasI i hi, hu, hc.id_eq i hi]
+      · intro j hj hq
+        rw [hc.n_eq] at hj
+        simp only [Bool.and_eq_true, beq_iff_eq] at hq
+        rw [hc.id_eq j hj] at hq
+        exact hino j i hj hi hq.2
+    rw [hfind]
+    simp only [hstamp, if_true, hpf, Bool.false_eq_true, if_false]
+    have hp : ((s.e i).id.path == (F i).path) = true := by rw [hc.id_eq i hi]; simp
+    simp only [hp, if_true]
+    refine ⟨trivial, trivial, hfinal _ ?_ ?_ ?_ ?_⟩
+    · exact hc.live i hi
+    · exact hc.id_eq i hi
+    · rfl
+    · show (s.e i).hasInode = true
+      rw [hc.hasI i hi, hu]; rfl
+  · -- no usable inodes: no entry not yet met is findable by inode, entries already met have other inodes
+    have huf : u = false := by cases u <;> simp_all
+    subst huf
+    have hfind : s.find (fun k => !k.removed && k.hasInode && k.id.inode == (F i).inode) = none := by
+      apply find_none'
+      intro j hj
+      rw [hc.n_eq] at hj
+      by_cases hji : j = i
+      · subst hji; simp [hc.hasI j hj, hpf]
+      · have : ((s.e j).id.inode == (F i).inode) = false := by
+          rw [hc.id_eq j hj]
+          simp only [beq_eq_false_iff_ne, ne_eq]
+          exact fun h => hji (hino j i hj hi h)
+        simp [this]
+    rw [hfind]
+    simp only
+    unfold byPathSeq
+    have hfind2 : s.find (fun k => !k.removed && k.id.path == (F i).path) = some i := by
+      apply find_unique s _ i (by rw [hc.n_eq]; exact hi)
+      · simp [hc.live i hi, hc.id_eq i hi]
+      · intro j hj hq
+        rw [hc.n_eq] at hj
+        simp only [Bool.and_eq_true, beq_iff_eq] at hq
+        rw [hc.id_eq j hj] at hq
+        exact hpath j i hj hi hq.2
+    rw [hfind2]
+    simp only [hpf, Bool.false_eq_true, if_false, hstamp, if_true]
+    refine ⟨trivial, trivial, hfinal _ ?_ ?_ ?_ ?_⟩
+    · exact hc.live i hi
+    · show { (s.e i).id with inode := (F i).inode } = F i
+      rw [hc.id_eq i hi]
+    · rfl
+    · rfl
+
+theorem conv_all (u : Bool) (other : List FileId) (n : Nat) (F : Nat → FileId)
+    (hino : ∀ j k, j < n → k < n → (F j).inode = (F k).inode → j = k)
+    (hpath : ∀ j k, j < n → k < n → (F j).path = (F k).path → j = k)
+    (order : List Nat) (s : SSt) (done : List Nat) (hc : Conv u n F s done)
+    (hlt : ∀ i ∈ order, i < n) (hnd : order.Nodup) (hdis : ∀ i ∈ order, i ∉ done) :
+    (∀ o ∈ (scanAll u other s (order.map F)).2, o.cls = .equal) ∧
+      keepsOf (scanAll u other s (order.map F)).2 = order ∧
+      Conv u n F (scanAll u other s (order.map F)).1 (order.reverse ++ done) := by
+  induction order generalizing s done with
+  | nil => simp [scanAll, keepsOf]; exact hc
+  | cons i rest ih =>
+    obtain ⟨h1, h2, h3⟩ := conv_step u other n F hino hpath s done hc i (hlt i List.mem_cons_self) (hdis i List.mem_cons_self)
+    have hnd' := List.nodup_cons.mp hnd
+    obtain ⟨a, b, c⟩ := ih (scanStep u other s (F i)).1 (i :: done) h3
+      (fun j hj => hlt j (List.mem_cons_of_mem _ hj)) hnd'.2
+      (by
+        intro j hj hmem
+        rcases List.mem_cons.mp hmem with rfl | hm
+        · exact hnd'.1 hj
+        · exact hdis j (List.mem_cons_of_mem _ hj) hm)
+    simp only [List.map_cons, scanAll]
+    refine ⟨?_, ?_, ?_⟩
+    · intro o ho
+      rcases List.mem_cons.mp ho with rfl | ho
+      · exact h1
+      · exact a o ho
+    · rw [keepsOf_cons_some _ _ i h2, b]
+    · have : (i :: rest).reverse ++ done = rest.reverse ++ (i :: done) := by simp
+      rw [this]; exact c
+
+/-- **convergence (scan level)**: a disk that holds exactly the files recorded for it — distinct
+    paths, distinct inodes (no hardlinks), each with its recorded size and time-stamp — scanned in
+    ANY walk order, with or without usable inodes, whatever the other disks hold: every entry is
+    classified `equal` and keeps its own recorded blocks, and no recorded file is left over to be
+    removed. This is what `diff` sees after a successful sync. -/
+theorem scan_converges (u : Bool) (other : List FileId) (known : List (FileId × Bool)) (order : List Nat)
+    (hperm : order.Perm (List.range known.length))
+    (hino : (known.map (·.1.inode)).Nodup) (hpath : (known.map (·.1.path)).Nodup) :
+    let F := fun i => ((initSt u known).e i).id
+    let r := scanAll u other (initSt u known) (order.map F)
+    (∀ o ∈ r.2, o.cls = .equal) ∧ keepsOf r.2 = order ∧ removedCount r.1 = 0 := by
+  intro F r
+  have hn : (initSt u known).n = known.length := rfl
+  have hF : ∀ j, j < known.length → F j = (known[j]?.map (·.1)).getD dflt.id := by
+    intro j hj
+    simp only [F, initSt]
+    rw [List.getElem?_eq_getElem hj]; rfl
+  have hinj : ∀ {α : Type} (g : FileId → α), (known.map (fun x => g x.1)).Nodup →
+      ∀ j k, j < known.length → k < known.length → g (F j) = g (F k) → j = k := by
+    intro α g hnd j k hj hk hg
+    rw [hF j hj, hF k hk, List.getElem?_eq_getElem hj, List.getElem?_eq_getElem hk] at hg
+    simp only [Option.map_some, Option.getD_some] at hg
+    have hpw := List.pairwise_iff_getElem.mp hnd
+    have hj' : j < (known.map (fun x => g x.1)).length := by simpa using hj
+    have hk' : k < (known.map (fun x => g x.1)).length := by simpa using hk
+    rcases Nat.lt_trichotomy j k with h | h | h
+    · exact absurd (by simpa using hg) (hpw j k hj' hk' h)
+    · exact h
+    · exact absurd (by simpa using hg.symm) (hpw k j hk' hj' h)
+  have hc0 : Conv u known.length F (initSt u known) [] := by
+    refine ⟨rfl, ?_, ?_, ?_, ?_⟩
+    · intro j hj; simp only [initSt]; rw [List.getElem?_eq_getElem hj]
+    · intro j hj; rfl
+    · intro j hj; simp only [initSt]; rw [List.getElem?_eq_getElem hj]; simp
+    · intro j hj; simp only [initSt]; rw [List.getElem?_eq_getElem hj]; simp
+  have hlt : ∀ i ∈ order, i < known.length := fun i hi => List.mem_range.mp (hperm.mem_iff.mp hi)
+  have hnd : order.Nodup := hperm.nodup_iff.mpr List.nodup_range
+  obtain ⟨a, b, c⟩ := conv_all u other known.length F (hinj (·.inode) hino) (hinj (·.path) hpath) order
+    (initSt u known) [] hc0 hlt hnd (fun _ _ h => by cases h)
+  refine ⟨a, b, ?_⟩
+  unfold removedCount
+  rw [List.length_eq_zero_iff, List.filter_eq_nil_iff]
+  intro j hj
+  have hjn : j < known.length := by rw [c.n_eq] at hj; exact List.mem_range.mp hj
+  have : ((scanAll u other (initSt u known) (order.map F)).1.e j).present = true := by
+    rw [c.pres j hjn]
+    simp only [List.append_nil, List.mem_reverse]
+    exact hperm.mem_iff.mpr (List.mem_range.mpr hjn)
+  simp [r, this]
+
+/-- non-vacuity: three recorded files met in the order 2, 0, 1 without usable inodes -/
+example :
+    let known : List (FileId × Bool) := [(⟨[97], 10, 5, 1, 100⟩, true), (⟨[98], 10, 5, 1, 101⟩, true), (⟨[99], 0, 7, 0, 102⟩, false)]
+    let r := scanAll false [] (initSt false known) [⟨[99], 0, 7, 0, 102⟩, ⟨[97], 10, 5, 1, 100⟩, ⟨[98], 10, 5, 1, 101⟩]
+    r.2.map (·.cls) = [.equal, .equal, .equal] ∧ keepsOf r.2 = [2, 0, 1] ∧ removedCount r.1 = 0 := by decide
+
+end Convergence
+
 end SnapraidVerif.Props.C11
